@@ -294,3 +294,209 @@ Proof.
   - vm_compute. reflexivity.
   - vm_compute. reflexivity.
 Qed.
+
+From OSV.Lemmas Require FloatOrderInstL.
+(** ** The order-law clauses at IEEE 754 binary64, for FINITE doubles (no law hypothesis)
+
+    The four order-law premises of [C11_rank_data_spec] ... [C11_bounds] are false for binary64 as
+    a whole (NaN is not equal to itself: [C11_laws_fail_nan_binary64]), so those theorems cannot
+    be instantiated at [FloatInst.B64Num] as they stand.  The laws do hold on the finite doubles
+    ([C11_order_laws_binary64]; +0.0 and -0.0 are distinct doubles that compare equal — the laws
+    speak of the comparison functions), and the conclusions follow for every list of finite
+    doubles: the polymorphic theorems are instantiated at the subset type
+    [{x : binary64 | is_finite x = true}] and transferred along [map proj1_sig].  The only
+    premise left is finiteness of the probabilities, which [C11_rank_probs_range_binary64]
+    derives: [C11_predict_rank_order_binary64] is the end-to-end statement. *)
+
+Theorem C11_order_laws_binary64 :
+  (forall x : Bits.binary64, Binary.is_finite 53%Z 1024%Z x = true -> FloatInst.b64_ltb x x = false) /\
+  (forall x y z : Bits.binary64,
+     Binary.is_finite 53%Z 1024%Z x = true -> Binary.is_finite 53%Z 1024%Z y = true ->
+     Binary.is_finite 53%Z 1024%Z z = true ->
+     FloatInst.b64_ltb x y = true -> FloatInst.b64_ltb y z = true -> FloatInst.b64_ltb x z = true) /\
+  (forall x y : Bits.binary64,
+     Binary.is_finite 53%Z 1024%Z x = true -> Binary.is_finite 53%Z 1024%Z y = true ->
+     (FloatInst.b64_eqb x y = true <-> (FloatInst.b64_ltb x y = false /\ FloatInst.b64_ltb y x = false))) /\
+  (forall x y z : Bits.binary64,
+     Binary.is_finite 53%Z 1024%Z x = true -> Binary.is_finite 53%Z 1024%Z y = true ->
+     Binary.is_finite 53%Z 1024%Z z = true ->
+     FloatInst.b64_eqb x y = true -> FloatInst.b64_eqb y z = true -> FloatInst.b64_eqb x z = true).
+Proof. exact FloatOrderInstL.b64_order_laws_fin. Qed.
+Print Assumptions C11_order_laws_binary64.
+
+(** without finiteness the third law fails: for x = NaN (0x7FF8000000000000) neither [x < x] nor
+    [x == x]; and the two zeros are distinct finite doubles that compare equal *)
+Example C11_laws_fail_nan_binary64 :
+  let x := Bits.b64_of_bits 9221120237041090560%Z in
+  Binary.is_finite 53%Z 1024%Z x = false /\ FloatInst.b64_ltb x x = false /\ FloatInst.b64_eqb x x = false.
+Proof. vm_compute. repeat split. Qed.
+Example C11_zeros_binary64 :
+  FloatInst.b64_eqb (Binary.B754_zero 53%Z 1024%Z false) (Binary.B754_zero 53%Z 1024%Z true) = true
+  /\ Binary.B754_zero 53%Z 1024%Z false <> Binary.B754_zero 53%Z 1024%Z true.
+Proof. split; [vm_compute; reflexivity | intros H; discriminate H]. Qed.
+
+(** [_rank_data] on a list of finite doubles is competition ranking *)
+Theorem C11_rank_data_spec_binary64 :
+  forall v : list Bits.binary64,
+    Forall (fun x : Bits.binary64 => Binary.is_finite 53%Z 1024%Z x = true) v ->
+    forall (d : Bits.binary64) (i : nat), i < length v ->
+      nth i (rank_data FloatInst.b64_ltb FloatInst.b64_eqb v) 0
+      = S (length (filter (fun w => FloatInst.b64_ltb w (nth i v d)) v)).
+Proof. exact FloatOrderInstL.rank_data_spec_b64. Qed.
+Print Assumptions C11_rank_data_spec_binary64.
+
+(** the doubles 1.0, 0.5, 1.0, -0.0, +0.0, 0.5: all finite; ranks 5 3 5 1 1 3 (the two zeros
+    tie), reversed as [predict_rank] does: 1 3 1 5 5 3 *)
+Example C11_rank_data_binary64_ex :
+  let v := map Bits.b64_of_bits
+             [4607182418800017408; 4602678819172646912; 4607182418800017408;
+              9223372036854775808; 0; 4602678819172646912]%Z in
+  Forall (fun x : Bits.binary64 => Binary.is_finite 53%Z 1024%Z x = true) v
+  /\ rank_data FloatInst.b64_ltb FloatInst.b64_eqb v = [5; 3; 5; 1; 1; 3]
+  /\ reverse_ranks (rank_data FloatInst.b64_ltb FloatInst.b64_eqb v) = [1; 3; 1; 5; 5; 3].
+Proof.
+  intros v. split; [|split].
+  - repeat (constructor; [vm_compute; reflexivity|]). constructor.
+  - vm_compute. reflexivity.
+  - vm_compute. reflexivity.
+Qed.
+
+(** [predict_rank] on the binary64 instance, whenever its probabilities are finite doubles:
+    the five clauses [C11_order] ... [C11_bounds], with the class's comparisons *)
+Theorem C11_order_binary64 :
+  forall (f_exp f_erfc f_pow2 f_icdf : Bits.binary64 -> Bits.binary64)
+         (beta : Bits.binary64) (teams : list (list (rating Bits.binary64))),
+    Forall (fun p : Bits.binary64 => Binary.is_finite 53%Z 1024%Z p = true)
+      (@predict_rank_probs Bits.binary64 (FloatInst.B64Num f_exp f_erfc f_pow2 f_icdf) beta teams) ->
+    forall (i j : nat) (d : Bits.binary64), i < length teams -> j < length teams ->
+      @fltb Bits.binary64 (FloatInst.B64Num f_exp f_erfc f_pow2 f_icdf)
+        (snd (nth j (@predict_rank Bits.binary64 (FloatInst.B64Num f_exp f_erfc f_pow2 f_icdf) beta teams) (0, d)))
+        (snd (nth i (@predict_rank Bits.binary64 (FloatInst.B64Num f_exp f_erfc f_pow2 f_icdf) beta teams) (0, d))) = true ->
+      fst (nth i (@predict_rank Bits.binary64 (FloatInst.B64Num f_exp f_erfc f_pow2 f_icdf) beta teams) (0, d))
+      < fst (nth j (@predict_rank Bits.binary64 (FloatInst.B64Num f_exp f_erfc f_pow2 f_icdf) beta teams) (0, d)).
+Proof. exact FloatOrderInstL.order_b64. Qed.
+Print Assumptions C11_order_binary64.
+
+Theorem C11_ties_binary64 :
+  forall (f_exp f_erfc f_pow2 f_icdf : Bits.binary64 -> Bits.binary64)
+         (beta : Bits.binary64) (teams : list (list (rating Bits.binary64))),
+    Forall (fun p : Bits.binary64 => Binary.is_finite 53%Z 1024%Z p = true)
+      (@predict_rank_probs Bits.binary64 (FloatInst.B64Num f_exp f_erfc f_pow2 f_icdf) beta teams) ->
+    forall (i j : nat) (d : Bits.binary64), i < length teams -> j < length teams ->
+      @feqb Bits.binary64 (FloatInst.B64Num f_exp f_erfc f_pow2 f_icdf)
+        (snd (nth i (@predict_rank Bits.binary64 (FloatInst.B64Num f_exp f_erfc f_pow2 f_icdf) beta teams) (0, d)))
+        (snd (nth j (@predict_rank Bits.binary64 (FloatInst.B64Num f_exp f_erfc f_pow2 f_icdf) beta teams) (0, d))) = true ->
+      fst (nth i (@predict_rank Bits.binary64 (FloatInst.B64Num f_exp f_erfc f_pow2 f_icdf) beta teams) (0, d))
+      = fst (nth j (@predict_rank Bits.binary64 (FloatInst.B64Num f_exp f_erfc f_pow2 f_icdf) beta teams) (0, d)).
+Proof. exact FloatOrderInstL.ties_b64. Qed.
+Print Assumptions C11_ties_binary64.
+
+Theorem C11_best_is_1_binary64 :
+  forall (f_exp f_erfc f_pow2 f_icdf : Bits.binary64 -> Bits.binary64)
+         (beta : Bits.binary64) (teams : list (list (rating Bits.binary64))),
+    Forall (fun p : Bits.binary64 => Binary.is_finite 53%Z 1024%Z p = true)
+      (@predict_rank_probs Bits.binary64 (FloatInst.B64Num f_exp f_erfc f_pow2 f_icdf) beta teams) ->
+    forall (i : nat) (d : Bits.binary64), i < length teams ->
+      (forall j, j < length teams ->
+         @fltb Bits.binary64 (FloatInst.B64Num f_exp f_erfc f_pow2 f_icdf)
+           (snd (nth i (@predict_rank Bits.binary64 (FloatInst.B64Num f_exp f_erfc f_pow2 f_icdf) beta teams) (0, d)))
+           (snd (nth j (@predict_rank Bits.binary64 (FloatInst.B64Num f_exp f_erfc f_pow2 f_icdf) beta teams) (0, d))) = false) ->
+      fst (nth i (@predict_rank Bits.binary64 (FloatInst.B64Num f_exp f_erfc f_pow2 f_icdf) beta teams) (0, d)) = 1.
+Proof. exact FloatOrderInstL.best_is_1_b64. Qed.
+Print Assumptions C11_best_is_1_binary64.
+
+Theorem C11_rank1_exists_binary64 :
+  forall (f_exp f_erfc f_pow2 f_icdf : Bits.binary64 -> Bits.binary64)
+         (beta : Bits.binary64) (teams : list (list (rating Bits.binary64))),
+    Forall (fun p : Bits.binary64 => Binary.is_finite 53%Z 1024%Z p = true)
+      (@predict_rank_probs Bits.binary64 (FloatInst.B64Num f_exp f_erfc f_pow2 f_icdf) beta teams) ->
+    forall d : Bits.binary64, teams <> [] ->
+      exists i, i < length teams
+        /\ fst (nth i (@predict_rank Bits.binary64 (FloatInst.B64Num f_exp f_erfc f_pow2 f_icdf) beta teams) (0, d)) = 1.
+Proof. exact FloatOrderInstL.rank1_exists_b64. Qed.
+Print Assumptions C11_rank1_exists_binary64.
+
+Theorem C11_bounds_binary64 :
+  forall (f_exp f_erfc f_pow2 f_icdf : Bits.binary64 -> Bits.binary64)
+         (beta : Bits.binary64) (teams : list (list (rating Bits.binary64))),
+    Forall (fun p : Bits.binary64 => Binary.is_finite 53%Z 1024%Z p = true)
+      (@predict_rank_probs Bits.binary64 (FloatInst.B64Num f_exp f_erfc f_pow2 f_icdf) beta teams) ->
+    forall (i : nat) (d : Bits.binary64), i < length teams ->
+      1 <= fst (nth i (@predict_rank Bits.binary64 (FloatInst.B64Num f_exp f_erfc f_pow2 f_icdf) beta teams) (0, d))
+      <= length teams.
+Proof. exact FloatOrderInstL.bounds_b64. Qed.
+Print Assumptions C11_bounds_binary64.
+
+(** END TO END, read on the real values of the returned doubles (cf. [C11_ranks_R]).  Under the
+    premises of [C11_rank_probs_range_binary64] (erfc finite with value in [0,2] on finite
+    arguments; 2 <= number of teams <= 2^20; the arguments handed to the normal CDF finite) the
+    integer ranks that [predict_rank] returns in binary64 satisfy: a strictly larger probability
+    has a strictly smaller (better) rank; equal probabilities share a rank; a team whose
+    probability no other exceeds has rank 1; every rank is in 1..n.  No order law is assumed. *)
+Theorem C11_predict_rank_order_binary64 :
+  forall (f_exp f_erfc f_pow2 f_icdf : Bits.binary64 -> Bits.binary64),
+  (forall x : Bits.binary64, Binary.is_finite 53%Z 1024%Z x = true ->
+     Binary.is_finite 53%Z 1024%Z (f_erfc x) = true
+     /\ (0 <= Binary.B2R 53%Z 1024%Z (f_erfc x) <= 2)%R) ->
+  forall (beta : Bits.binary64) (teams : list (list (rating Bits.binary64))),
+  2 <= length teams -> (Z.of_nat (length teams) <= 2 ^ 20)%Z ->
+  (forall (ro : list (rating Bits.binary64) * list (list (rating Bits.binary64))) (tb : list (rating Bits.binary64)),
+     In ro (rows teams) -> In tb (snd ro) ->
+     Binary.is_finite 53%Z 1024%Z
+       (@fdiv Bits.binary64 (FloatInst.B64Num f_exp f_erfc f_pow2 f_icdf)
+          (@fsub Bits.binary64 (FloatInst.B64Num f_exp f_erfc f_pow2 f_icdf)
+             (@fsub Bits.binary64 (FloatInst.B64Num f_exp f_erfc f_pow2 f_icdf)
+                (fst (@agg Bits.binary64 (FloatInst.B64Num f_exp f_erfc f_pow2 f_icdf) (fst ro)))
+                (fst (@agg Bits.binary64 (FloatInst.B64Num f_exp f_erfc f_pow2 f_icdf) tb)))
+             (@draw_margin Bits.binary64 (FloatInst.B64Num f_exp f_erfc f_pow2 f_icdf) beta teams))
+          (@pair_scale Bits.binary64 (FloatInst.B64Num f_exp f_erfc f_pow2 f_icdf) beta (length teams)
+             (@agg Bits.binary64 (FloatInst.B64Num f_exp f_erfc f_pow2 f_icdf) (fst ro))
+             (@agg Bits.binary64 (FloatInst.B64Num f_exp f_erfc f_pow2 f_icdf) tb))) = true) ->
+  forall (i j : nat) (d : Bits.binary64), i < length teams -> j < length teams ->
+  let pr := @predict_rank Bits.binary64 (FloatInst.B64Num f_exp f_erfc f_pow2 f_icdf) beta teams in
+  ((Binary.B2R 53%Z 1024%Z (snd (nth j pr (0%nat, d))) < Binary.B2R 53%Z 1024%Z (snd (nth i pr (0%nat, d))))%R ->
+     fst (nth i pr (0, d)) < fst (nth j pr (0, d)))
+  /\ (Binary.B2R 53%Z 1024%Z (snd (nth i pr (0, d))) = Binary.B2R 53%Z 1024%Z (snd (nth j pr (0, d))) ->
+     fst (nth i pr (0, d)) = fst (nth j pr (0, d)))
+  /\ ((forall k, k < length teams ->
+         (Binary.B2R 53%Z 1024%Z (snd (nth k pr (0%nat, d))) <= Binary.B2R 53%Z 1024%Z (snd (nth i pr (0%nat, d))))%R) ->
+     fst (nth i pr (0, d)) = 1)
+  /\ 1 <= fst (nth i pr (0, d)) <= length teams.
+Proof. exact FloatOrderInstL.predict_rank_order_b64. Qed.
+Print Assumptions C11_predict_rank_order_binary64.
+
+(** non-vacuity: the instance of [C11_rank_probs_range_binary64_ex] (stand-ins for the libm
+    parameters; teams with aggregate means 25, 30.5, 42; probabilities 0.0, 1/3, 2/3 rounded)
+    satisfies the premises; the ranks computed in binary64 are 3, 2, 1. *)
+Example C11_predict_rank_order_binary64_ex :
+  let N := FloatInst.B64Num (fun x => x)
+             (fun x => match Bits.b64_compare x (Binary.B754_zero 53%Z 1024%Z false) with
+                       | Some Lt => FloatInst.b64_of_Z 2 | Some Gt => FloatInst.b64_of_Z 0
+                       | _ => FloatInst.b64_of_Z 1 end)
+             (fun x => Bits.b64_mult BinarySingleNaN.mode_NE x x) (fun x => x) in
+  let t1 := [mkRating (Bits.b64_of_bits 4627730092099895296%Z) (Bits.b64_of_bits 4620880867666602667%Z) 0%Z NmNone] in
+  let t2 := [mkRating (Bits.b64_of_bits 4629278204471803904%Z) (Bits.b64_of_bits 4619848792751996928%Z) 1%Z NmNone] in
+  let t3 := [mkRating (FloatInst.b64_of_Z 20) (FloatInst.b64_of_Z 5) 2%Z NmNone;
+             mkRating (FloatInst.b64_of_Z 22) (FloatInst.b64_of_Z 4) 3%Z NmNone] in
+  let beta := Bits.b64_of_bits 4616377268039232171%Z in
+  (forall (i j : nat) (d : Bits.binary64), i < 3 -> j < 3 ->
+     let pr := @predict_rank Bits.binary64 N beta [t1; t2; t3] in
+     ((Binary.B2R 53%Z 1024%Z (snd (nth j pr (0%nat, d))) < Binary.B2R 53%Z 1024%Z (snd (nth i pr (0%nat, d))))%R ->
+        fst (nth i pr (0, d)) < fst (nth j pr (0, d)))
+     /\ (Binary.B2R 53%Z 1024%Z (snd (nth i pr (0, d))) = Binary.B2R 53%Z 1024%Z (snd (nth j pr (0, d))) ->
+        fst (nth i pr (0, d)) = fst (nth j pr (0, d)))
+     /\ ((forall k, k < 3 ->
+            (Binary.B2R 53%Z 1024%Z (snd (nth k pr (0%nat, d))) <= Binary.B2R 53%Z 1024%Z (snd (nth i pr (0%nat, d))))%R) ->
+        fst (nth i pr (0, d)) = 1)
+     /\ 1 <= fst (nth i pr (0, d)) <= 3)
+  /\ map fst (@predict_rank Bits.binary64 N beta [t1; t2; t3]) = [3; 2; 1].
+Proof.
+  intros N t1 t2 t3 beta. split.
+  - apply (C11_predict_rank_order_binary64 _ _ _ _ FloatRangeL.ex_erfc_ok beta [t1; t2; t3]).
+    + repeat constructor.
+    + vm_compute. intros H; discriminate H.
+    + intros ro tb Hro Htb. cbv [rows rows_aux rev app In] in Hro.
+      destruct Hro as [<-|[<-|[<-|[]]]]; cbv [snd In] in Htb; destruct Htb as [<-|[<-|[]]];
+        vm_compute; reflexivity.
+  - vm_compute. reflexivity.
+Qed.
